@@ -52,11 +52,11 @@ Qed.
 Definition sg_matches (expected : option subgraph) (status : Z) (obs : list sg_obs) : Prop :=
   match expected with None => status = 2 /\ obs = [] | Some s => status = 0 /\ Forall2 sg_row s obs end.
 
-Lemma sg_verdict_sound : forall op bits expected status obs pure same c tag pos diag,
-  sg_verdict op bits expected status obs pure same = verdict c tag pos diag -> c = 0 \/ c = 1 ->
+Lemma sg_verdict_sound : forall op bits expected status obs pure same c v,
+  sg_verdict op bits expected status obs pure same = c :: v -> c = 0 \/ c = 1 ->
   c = 0 /\ pure = 1 /\ same = true /\ sg_matches expected status obs.
 Proof.
-  intros op bits expected status obs pure same c tag pos diag H Hc. unfold sg_verdict in H. cbv zeta in H.
+  intros op bits expected status obs pure same c v H Hc. unfold sg_verdict in H. cbv zeta in H.
   apply ok_or_mismatch in H; [|exact Hc]. destruct H as [W ->].
   destruct expected as [s|]; ff_split W;
     repeat match goal with H : (_ =? _) = true |- _ => apply Z.eqb_eq in H end; subst; cbn; repeat split; auto.
@@ -89,10 +89,10 @@ Definition keep_case_ok (rest : list Z) : Prop :=
     (* a node outside the graph or listed twice: the call panics *)
     (neg = false -> (exists v, In v nodesN /\ (g_n g <= v)%N) \/ ~ NoDup nodesN -> status = 2).
 
-Theorem check_keep_sound : forall l c tag pos diag r,
-  check_keep l = Some (verdict c tag pos diag, r) -> c = 0 \/ c = 1 -> c = 0 /\ r = [] /\ keep_case_ok l.
+Theorem check_keep_sound : forall l c v r,
+  check_keep l = Some (c :: v, r) -> c = 0 \/ c = 1 -> c = 0 /\ r = [] /\ keep_case_ok l.
 Proof.
-  intros l c tag pos diag r H Hc. unfold check_keep in H. pinv H. subst.
+  intros l c v r H Hc. unfold check_keep in H. pinv H. subst.
   destruct (g_wfb a) eqn:Ewf; cbn [negb] in Ev; [|rejected Ev]. apply g_wfb_spec in Ewf.
   destruct (pairs_of a1) as [edges|] eqn:EP; [|rejected Ev]. apply pairs_of_some in EP.
   cbv zeta in Ev. apply sg_verdict_sound in Ev; [|exact Hc]. destruct Ev as (-> & -> & Same & M).
@@ -133,10 +133,10 @@ Definition remove_case_ok (rest : list Z) : Prop :=
        status = 0 /\ exists s, Forall2 sg_row s obs /\ remove_spec_concl g nodes edges s) /\
     ((length g < zdistinct nodes)%nat -> status = 2).
 
-Theorem check_remove_sound : forall l c tag pos diag r,
-  check_remove l = Some (verdict c tag pos diag, r) -> c = 0 \/ c = 1 -> c = 0 /\ r = [] /\ remove_case_ok l.
+Theorem check_remove_sound : forall l c v r,
+  check_remove l = Some (c :: v, r) -> c = 0 \/ c = 1 -> c = 0 /\ r = [] /\ remove_case_ok l.
 Proof.
-  intros l c tag pos diag r H Hc. unfold check_remove in H. pinv H. subst.
+  intros l c v r H Hc. unfold check_remove in H. pinv H. subst.
   destruct (g_wfb a) eqn:Ewf; cbn [negb] in Ev; [|rejected Ev]. apply g_wfb_spec in Ewf.
   destruct (pairs_of a1) as [edges|] eqn:EP; [|rejected Ev]. apply pairs_of_some in EP.
   cbv zeta in Ev. apply sg_verdict_sound in Ev; [|exact Hc]. destruct Ev as (-> & -> & Same & M).
